@@ -975,10 +975,20 @@ impl BuiltInFunction {
 
                 let result: Primitive = match this {
                     Primitive::Int(i32) => Primitive::Float((*i32).into()),
-                    Primitive::BigInt(i128) => Primitive::Float(f64::from(
-                        i32::try_from(*i128)
-                            .with_context(|| format!("`{i128}` cannot be made into a float"))?,
-                    )),
+                    Primitive::BigInt(i128) => {
+                        // a float holds an integer exactly when the bits between its highest and
+                        // lowest set bit fit the 53-bit mantissa
+                        let magnitude = i128.unsigned_abs();
+                        let unused_bits = magnitude
+                            .leading_zeros()
+                            .saturating_add(magnitude.trailing_zeros());
+
+                        if unused_bits < 128 - 53 {
+                            bail!("`{i128}` cannot be made into a float without losing digits")
+                        }
+
+                        Primitive::Float(*i128 as f64)
+                    }
                     Primitive::Byte(u8) => Primitive::Float(*u8 as f64),
                     Primitive::Float(f64) => Primitive::Float(*f64),
                     bad => unreachable!("{bad}"),
